@@ -74,6 +74,27 @@ func registerBufModels() {
 		}
 		return Term{}, false
 	}, true)
+	models["(*bytes.Buffer).Len"] = func(e *Engine, st *State, args []Value, depth int, pos string, k func(*State, Value)) {
+		b, _, ok := e.bufObj(st, args[0])
+		if !ok {
+			n := e.fresh(st, "buf.len", SInt)
+			st.fact(Ge(n, IntLit(0)))
+			k(st, sym(n))
+			return
+		}
+		// the number of bytes written so far: one per byte literal, the length of every other piece
+		total := IntLit(0)
+		for _, p := range b.Pieces {
+			if len(p.S) > 5 && p.S[:5] == "byte!" {
+				total = Add(total, IntLit(1))
+				continue
+			}
+			l := App(SInt, "b.len", p)
+			st.fact(Ge(l, IntLit(0)))
+			total = Add(total, l)
+		}
+		k(st, sym(total))
+	}
 	models["(*bytes.Buffer).Bytes"] = func(e *Engine, st *State, args []Value, depth int, pos string, k func(*State, Value)) {
 		b, _, ok := e.bufObj(st, args[0])
 		if !ok {
